@@ -115,7 +115,7 @@ NOTES = {
  'C08-15': 'first missed: columns of other declared types (Uuid, Numeric, Enum, Interval, Text, BigInteger, Date / DateTime / Time) on Core and ORM, compiled for SQLite and PostgreSQL',
  'C11-15': 'first missed: a parameter name REPEATED in one call (s=1, s=2; p, q, p; three times) for every name of the call matrix: every written argument counts and keeps its place',
  'C12-16': 'first missed: literals whose value is falsy in Python (0, 0.0, empty string) in every argument position must give the SQL skeleton and parameter count a truthy literal gives',
- 'C09-15': 'first missed: one sub-expression occurring TWICE in a filter in every pair of operand contexts (parent operator x side, arithmetic and Boolean; sqlcommon.repeated_subterms) - state a printer keeps per node between two visits',
+ 'C09-15': 'first missed: one sub-expression occurring TWICE in a filter in every pair of operand contexts (parent operator x side, arithmetic and Boolean; sqlcommon.repeated_subterms, also fed to c01 / c02 / c03 where the rows decide) - state a printer keeps per node between two visits',
  'C16-15': 'first missed: one visitor / transformer / dialect instance reused after 1, 30, 300+ traversals aborted by an exception from a handler must handle legal trees as a fresh instance does',
  'C19-11': 'first caught only through the tie: the re-layout recognises punctuation by its TEXT, so a tree that re-types the comma token is judged by the same whitespace-before-comma variants',
  'C20-4': 'first missed: accumulation histories (40-120 repetitions of one input, nine kinds that leave a parenthesis open) and extreme single inputs added',
